@@ -205,6 +205,16 @@ def sigusr1(chk, impl, rng):
         svcs, rules = gen_tables(rng, dict(p_rules=0.8))
         kind, s2, r2 = edit_tables(rng, svcs, rules)
         pr = fix_serials(probes(rng, s2, r2), 0)
+        # the signal is handled by the event loop; the probes must not reach the daemon before it has been: a pause, and on a
+        # disagreement one repetition with a much longer pause (a loaded machine), reported only if that disagrees as well
+        r = sigusr1_once(chk, impl, svcs, rules, kind, s2, r2, pr, 0.5)
+        if r is not None:
+            r = sigusr1_once(chk, impl, svcs, rules, kind, s2, r2, pr, 4.0)
+            if r is not None:
+                chk.violation(*r); return
+
+def sigusr1_once(chk, impl, svcs, rules, kind, s2, r2, pr, pause):
+    if True:
         d = Path(tempfile.mkdtemp(dir=str(BUILD / "tmp"), prefix="u"))
         try:
             conf = d / "iauthd.conf"
@@ -216,7 +226,7 @@ def sigusr1(chk, impl, rng):
                 r, _, _ = select.select([p.stdout], [], [], 0.5)
                 if r: out += os.read(p.stdout.fileno(), 65536)
             conf.write_text(conf_text(str(impl / "mods"), True, True, s2, r2, 0), encoding="latin1")
-            p.send_signal(signal.SIGUSR1); time.sleep(0.3)
+            p.send_signal(signal.SIGUSR1); time.sleep(pause)
             inp = b"".join(it[1] + b"\n" + MARK for it in pr)
             p.stdin.write(inp); p.stdin.close()
             out2 = p.stdout.read().decode('latin1'); p.stderr.read(); p.wait(timeout=30)
@@ -225,7 +235,7 @@ def sigusr1(chk, impl, rng):
             chk.cov["evaluations"] += 1
             a = [(sorted(l), None) for l, n in steps]; b = [(sorted(l), None) for l, n in fresh.steps]
             if a != b:
-                chk.violation("SIGUSR1 reload (%s): probes treated differently from a fresh daemon" % kind, "old %r %r\nnew %r %r\nreloaded: %r\nfresh: %r" % (svcs, rules, s2, r2, a, b), "sigusr1")
-                return
+                return ("SIGUSR1 reload (%s): probes treated differently from a fresh daemon" % kind, "old %r %r\nnew %r %r\nreloaded: %r\nfresh: %r" % (svcs, rules, s2, r2, a, b), "sigusr1")
+            return None
         finally:
             shutil.rmtree(d, ignore_errors=True)
